@@ -32,7 +32,7 @@ def monitored_run_tagging_tasks(args):
         time.sleep((h % 40) / 400.0)   # 0 .. 0.1 s, decided by the seed and the job identity
     t0 = time.monotonic()
     res = _orig_run_tagging_tasks()(args)
-    ev = {'job': key, 'pid': os.getpid(), 'done': time.monotonic(), 'file': res[0], 'tasks': [
+    ev = {'job': key, 'pid': os.getpid(), 'start': t0, 'done': time.monotonic(), 'file': res[0], 'tasks': [
         [t.get('contig'), t.get('start'), t.get('end'), t.get('fetch_start'), t.get('fetch_end')] for t in arglist]}
     if res[0] is not None and os.environ.get(EVENT_ENV):
         recs = []
